@@ -169,6 +169,13 @@ class SelectContext(Selector):
         self._key = key
         self._predicate = predicate
         self._raise_on_error = bool(raise_on_error)
+        # attributes of a Selector (used in its representation
+        # and comparison), which is not initialized here
+        self._selector = predicate
+        self._selector_repr = "{}, {}".format(repr(key), repr(predicate))
+        self._from_callable = True
+        self._orig_class = None
+        self._orig_str = None
 
     def __call__(self, value):
         context = get_context(value)
@@ -191,6 +198,12 @@ class SelectContext(Selector):
             return False
         else:
             return res
+
+    def __repr__(self):
+        if self._raise_on_error is False:
+            return "SelectContext({}, raise_on_error=False)"\
+                    .format(self._selector_repr)
+        return "SelectContext({})".format(self._selector_repr)
 
 
 class And(Selector):
